@@ -65,13 +65,15 @@ class Deadlock(Exception):
 class Sched:
     """Runs callables on real threads, exactly one at a time.  Switch points: thread start, every
     line event in paramiko/pipe.py, and lock-acquire lines in buffered_pipe.py / channel.py.  A
-    parked thread has not yet executed the line it is parked at."""
+    parked thread has not yet executed the line it is parked at.  Hand-over is by one semaphore
+    per worker plus one for the controller (exactly one of them is ever runnable)."""
 
     def __init__(self, fns, lock_points=True):
         self.fns = fns
         self.n = len(fns)
-        self.cv = threading.Condition()
-        self.parked = {}            # t -> dict(func, line, text, frame)
+        self.go = [threading.Semaphore(0) for _ in fns]
+        self.ctl = threading.Semaphore(0)
+        self.parked = {}            # t -> dict(func, line, text, frame, lock)
         self.finished = set()
         self.cmd = {}               # t -> "go" | "probe"
         self.probe_result = {}
@@ -80,27 +82,29 @@ class Sched:
         self.trace = []             # (t, func, line) for every executed traced line
         self.lock_points = lock_points
         self.threads = []
+        self.fresh = {}             # t -> qualname of a pipe.py function just entered
+        self.markers = []           # (t, qualname) in the order the first body line executed
 
     # -- worker side -----------------------------------------------------------
     def _park(self, t, info):
-        with self.cv:
-            self.parked[t] = info
-            self.cv.notify_all()
-            while True:
-                while t not in self.cmd and not self.abort:
-                    self.cv.wait()
-                if self.abort:
-                    self.parked.pop(t, None)
-                    raise _Abort()
-                c = self.cmd.pop(t)
-                if c == "probe":
-                    self.probe_result[t] = self._probe(info)
-                    self.cv.notify_all()
-                    continue
-                del self.parked[t]
-                if info["func"] != "<start>":
-                    self.trace.append((t, info["func"], info["line"]))
-                return
+        self.parked[t] = info
+        self.ctl.release()
+        while True:
+            self.go[t].acquire()
+            if self.abort:
+                self.parked.pop(t, None)
+                raise _Abort()
+            c = self.cmd.pop(t)
+            if c == "probe":
+                self.probe_result[t] = self._probe(info)
+                self.ctl.release()
+                continue
+            del self.parked[t]
+            if info["func"] != "<start>":
+                self.trace.append((t, info["func"], info["line"]))
+                if t in self.fresh:
+                    self.markers.append((t, self.fresh.pop(t)))
+            return
 
     @staticmethod
     def _probe(info):
@@ -128,7 +132,6 @@ class Sched:
                     key = (id(frame), frame.f_lineno)
                     if text.lstrip().startswith("with") and key in entered:
                         entered.discard(key)     # second event on a `with` line = leaving the block
-                        info["exit"] = True
                     else:
                         if text.lstrip().startswith("with"):
                             entered.add(key)
@@ -139,7 +142,10 @@ class Sched:
 
         def glob(frame, event, arg):
             fn = frame.f_code.co_filename
-            if fn.endswith(PIPE_FILE) or (self.lock_points and fn.endswith(LOCK_FILES)):
+            if fn.endswith(PIPE_FILE):
+                self.fresh[t] = frame.f_code.co_qualname
+                return local
+            if self.lock_points and fn.endswith(LOCK_FILES):
                 return local
             return None
         return glob
@@ -153,28 +159,24 @@ class Sched:
             finally:
                 sys.settrace(None)
         except _Abort:
-            pass
+            return
         except BaseException as e:  # noqa
             self.exc[t] = e
-        finally:
-            with self.cv:
-                self.finished.add(t)
-                self.parked.pop(t, None)
-                self.cv.notify_all()
+        self.finished.add(t)
+        self.parked.pop(t, None)
+        self.ctl.release()
 
     # -- controller side -------------------------------------------------------
+    def _wait(self):
+        if not self.ctl.acquire(timeout=30.0):
+            raise RuntimeError("scheduler: a thread neither parked nor finished (untraced blocking?)")
+
     def start(self):
         for t in range(self.n):
             th = threading.Thread(target=self._body, args=(t,), daemon=True)
             self.threads.append(th)
             th.start()
-        self._settle()
-
-    def _settle(self):
-        with self.cv:
-            while len(self.parked) + len(self.finished) < self.n or self.cmd:
-                if not self.cv.wait(20.0):
-                    raise RuntimeError("scheduler: a thread neither parked nor finished (untraced blocking?)")
+            self._wait()
 
     def alive(self):
         return [t for t in range(self.n) if t not in self.finished]
@@ -195,25 +197,21 @@ class Sched:
             except Exception:
                 return True
         if info["lock"]:
-            with self.cv:
-                self.cmd[t] = "probe"
-                self.probe_result.pop(t, None)
-                self.cv.notify_all()
-                while t not in self.probe_result:
-                    self.cv.wait()
-                return self.probe_result.pop(t)
+            self.cmd[t] = "probe"
+            self.go[t].release()
+            self._wait()
+            return self.probe_result.pop(t)
         return True
 
     def step(self, t):
-        with self.cv:
-            self.cmd[t] = "go"
-            self.cv.notify_all()
-        self._settle()
+        self.cmd[t] = "go"
+        self.go[t].release()
+        self._wait()
 
     def stop(self):
-        with self.cv:
-            self.abort = True
-            self.cv.notify_all()
+        self.abort = True
+        for t in range(self.n):
+            self.go[t].release()
         for th in self.threads:
             th.join(5.0)
 
@@ -234,3 +232,553 @@ class Sched:
                 self.step(t)
         finally:
             self.stop()
+
+
+# ------------------------------------------------------------------------------------------
+# exploration of schedules (stateless depth-first search with a preemption bound)
+
+
+def explore(make, max_preempt, limit):
+    """make() -> env with .fns, .observe(sched, deadlock) and .close().
+    Yields (choices, observation) for every schedule with at most `max_preempt` preemptions
+    (None = unbounded), at most `limit` runs.  Returns via StopIteration value whether the
+    enumeration was complete."""
+    stack = [[]]
+    runs = 0
+    complete = True
+    while stack:
+        if runs >= limit:
+            complete = False
+            break
+        prefix = stack.pop()
+        env = make()
+        rec = []
+        try:
+            sched = Sched(env.fns)
+
+            def choose(en, _s, rec=rec, prefix=prefix):
+                k = len(rec)
+                if k < len(prefix) and prefix[k] in en:
+                    t = prefix[k]
+                elif rec and rec[-1][1] in en:
+                    t = rec[-1][1]
+                else:
+                    t = en[0]
+                rec.append((list(en), t))
+                return t
+            dead = None
+            try:
+                sched.run(choose)
+            except Deadlock as e:
+                dead = e.args[0]
+            obs = env.observe(sched, dead)
+        finally:
+            env.close()
+        runs += 1
+        yield [c for _, c in rec], obs
+        # alternatives after the prefix
+        pre = 0
+        pcount = []
+        for k, (en, c) in enumerate(rec):
+            if k > 0 and c != rec[k - 1][1] and rec[k - 1][1] in en:
+                pre += 1
+            pcount.append(pre)
+        for k in range(len(rec) - 1, len(prefix) - 1, -1):
+            en, c = rec[k]
+            base = pcount[k - 1] if k > 0 else 0
+            for alt in en:
+                if alt == c:
+                    continue
+                p = base + (1 if k > 0 and rec[k - 1][1] in en and alt != rec[k - 1][1] else 0)
+                if max_preempt is None or p <= max_preempt:
+                    stack.append([x for _, x in rec[:k]] + [alt])
+    return complete
+
+
+def pipe_bytes(fd):
+    import fcntl
+    import struct
+    import termios
+    return struct.unpack("i", fcntl.ioctl(fd, termios.FIONREAD, b"\0\0\0\0"))[0]
+
+
+def is_readable(fd):
+    return bool(select.select([fd], [], [], 0)[0])
+
+
+CALLS = {0: ("p1", "set"), 1: ("p1", "clear"), 2: ("p2", "set"), 3: ("p2", "clear"), 4: ("p", "set_forever")}
+
+
+class PipeEnv:
+    """Real PosixPipe + two OrPipes; threads each make a list of calls."""
+
+    def __init__(self, start, calls):
+        from paramiko import pipe
+        self.p = pipe.PosixPipe()
+        self.p1, self.p2 = pipe.make_or_pipe(self.p)
+        self.objs = {"p1": self.p1, "p2": self.p2, "p": self.p}
+        a, b, f = start
+        if a:
+            self.p1.set()
+        if b:
+            self.p2.set()
+        if f:
+            self.p.set_forever()
+        self.calls = calls
+        self.fns = [self._thread(cs) for cs in calls]
+
+    def _thread(self, cs):
+        def fn():
+            for c in cs:
+                o, m = CALLS[c]
+                getattr(self.objs[o], m)()
+        return fn
+
+    def observe(self, sched, dead):
+        fd = self.p.fileno()
+        # model schedule: one entry per critical section, in the order they were entered
+        ms = []
+        skip = {}
+        for t, q in sched.markers:
+            if q.endswith("set_forever"):
+                skip[t] = True
+                ms.append(t)
+            elif q.endswith("Pipe.set") and not q.startswith("OrPipe") and skip.get(t):
+                skip[t] = False     # the set() nested inside set_forever: same critical section
+            else:
+                ms.append(t)
+        flags = [int(bool(self.p1._set)), int(bool(self.p2._set)), int(bool(self.p._set)),
+                 int(bool(self.p._forever)), pipe_bytes(fd), int(is_readable(fd))]
+        ok = int(dead is None and not sched.exc)
+        return {"flags": flags + [ok], "msched": ms, "dead": dead, "exc": {k: repr(v) for k, v in sched.exc.items()},
+                "trace": list(sched.trace)}
+
+    def close(self):
+        try:
+            self.p.close()
+        except OSError:
+            pass
+
+
+def pipe_expected(start, calls):
+    """Spec: what select() must report once every call has returned."""
+    a, b, f = start
+    for cs in calls:
+        for c in cs:
+            if c == 0:
+                a = True
+            elif c == 1:
+                a = False
+            elif c == 2:
+                b = True
+            elif c == 3:
+                b = False
+            else:
+                f = True
+    return bool(a or b or f)
+
+
+def pipe_setups(thorough, rng):
+    """Thread A only touches the stdout half (it holds the stdout buffer's lock), B only the stderr
+    half, C is the channel-lock holder calling set_forever."""
+    A1 = [[0], [1]]
+    B1 = [[2], [3]]
+    C = [[4]]
+    combos = []
+    for a in A1:
+        for b in B1:
+            combos.append([a, b])
+    for a in A1:
+        combos.append([a, C[0]])
+    for b in B1:
+        combos.append([b, C[0]])
+    if thorough:
+        A2 = [[0, 1], [1, 0], [0, 0], [1, 1]]
+        B2 = [[2, 3], [3, 2], [2, 2], [3, 3]]
+        for a in A2:
+            for b in B2:
+                combos.append([a, b])
+        for a in A1 + A2[:2]:
+            for b in B1 + B2[:2]:
+                combos.append([a, b, C[0]])
+    else:
+        for a in A1:
+            for b in B1:
+                combos.append([a, b, C[0]])
+        combos.append([[0, 1], [3, 2]])
+        combos.append([[1, 0], [2, 3]])
+    starts = [(a, b, f) for a in (False, True) for b in (False, True) for f in (False, True)]
+    return [(s, c) for c in combos for s in starts]
+
+
+# ------------------------------------------------------------------------------------------
+# a real Channel on a stub transport
+
+
+class StubTransport:
+    active = True
+
+    def __init__(self):
+        self.sent = 0
+        self.lock = threading.Lock()
+
+    def get_log_channel(self):
+        return "paramiko.transport"
+
+    def _sanitize_packet_size(self, n):
+        return n
+
+    def _send_user_message(self, m):
+        self.sent += 1
+
+    def _unlink_channel(self, cid):
+        pass
+
+    def getpeername(self):
+        return ("stub", 0)
+
+
+def make_channel():
+    from paramiko.channel import Channel
+    ch = Channel(1)
+    ch._set_transport(StubTransport())
+    ch._set_window(1 << 20, 1 << 15)
+    ch._set_remote_channel(2, 1 << 20, 1 << 15)
+    ch.settimeout(0.0)
+    return ch
+
+
+def ext_msg(data):
+    from paramiko.message import Message
+    m = Message()
+    m.add_int(1)
+    m.add_string(data)
+    m.rewind()
+    return m
+
+
+def chan_wanted(ch):
+    return bool(len(ch.in_buffer) > 0 or len(ch.in_stderr_buffer) > 0 or ch.eof_received or ch.closed)
+
+
+def chan_apply(ch, op, variant=0):
+    """One operation of the sequential / concurrent channel runs; returns the model op code."""
+    import socket
+    if op == 0:
+        ch._feed(b"ab" if variant == 0 else b"abcde")
+    elif op == 1:
+        ch._feed(b"")
+    elif op == 2:
+        ch._feed_extended(ext_msg(b"xy" if variant == 0 else b"vwxyz"))
+    elif op == 3:
+        ch._feed_extended(ext_msg(b""))
+    elif op == 4:
+        try:
+            ch.recv(1 << 16)
+        except socket.timeout:
+            pass
+    elif op == 5:
+        try:
+            ch.recv_stderr(1 << 16)
+        except socket.timeout:
+            pass
+    elif op == 6:
+        # partial read (only meaningful with >= 2 bytes buffered; otherwise behaves as code 4/5)
+        try:
+            if variant == 0:
+                ch.recv(1)
+            else:
+                ch.recv_stderr(1)
+        except socket.timeout:
+            pass
+    elif op == 7:
+        ch.in_buffer.empty()
+    elif op == 8:
+        ch.in_stderr_buffer.empty()
+    elif op == 9:
+        if variant == 0:
+            ch._handle_eof(None)
+        else:
+            ch._handle_close(None)
+
+
+def close_channel_fds(ch):
+    p = ch._pipe
+    ch._pipe = None
+    if p is not None:
+        try:
+            p.close()
+        except OSError:
+            pass
+
+
+def chan_sequential_case(rng, nops):
+    """Returns (start, ops_for_model, readable_trace, final_flags, oracle_failure or None)."""
+    ch = make_channel()
+    try:
+        d1, d2, closed = rng.random() < 0.4, rng.random() < 0.4, rng.random() < 0.2
+        if d1:
+            ch._feed(b"stdout")
+        if d2:
+            ch._feed_extended(ext_msg(b"stderr"))
+        if closed:
+            ch._handle_eof(None)
+        fd = ch.fileno()
+        mops = []
+        out = []
+        failure = None
+        if is_readable(fd) != chan_wanted(ch):
+            failure = ("fileno-initial-state", [], is_readable(fd), chan_wanted(ch))
+        for _ in range(nops):
+            op = rng.choice([0, 0, 1, 2, 2, 3, 4, 4, 5, 5, 6, 7, 8, 9] if rng.random() < 0.8 else [0, 2, 4, 5])
+            variant = rng.randrange(2)
+            mop = op
+            if op == 6:
+                buf = ch.in_buffer if variant == 0 else ch.in_stderr_buffer
+                if len(buf) < 2:
+                    mop = 4 if variant == 0 else 5      # recv(1) empties a 1-byte buffer / times out
+            if op == 9 and ((variant == 0 and ch.eof_received) or (variant == 1 and ch.closed)):
+                mop = 6     # guarded out by `if not self.eof_received` / `if not self.active or self.closed`
+            chan_apply(ch, op, variant)
+            mops.append(mop)
+            r = is_readable(fd)
+            out += [int(r), 1]
+            if r != chan_wanted(ch) and failure is None:
+                key = "empty-feed-sets-event" if op in (1, 3) else "sequential-readable-mismatch"
+                failure = (key, list(mops), r, chan_wanted(ch))
+        p = ch._pipe
+        p1 = ch.in_buffer._event
+        p2 = ch.in_stderr_buffer._event
+        out += [int(bool(p1._set)), int(bool(p2._set)), int(bool(p._set)), int(bool(p._forever)), pipe_bytes(fd)]
+        return [int(d1), int(d2), int(closed)], mops, out, failure
+    finally:
+        close_channel_fds(ch)
+
+
+class ChanEnv:
+    """Concurrent run on a real Channel: thread 0 = transport thread (feeds, EOF / close),
+    thread 1 = reader of stdout, thread 2 = reader of stderr."""
+
+    def __init__(self, pre, progs):
+        self.ch = make_channel()
+        for op, v in pre:
+            chan_apply(self.ch, op, v)
+        self.fd = self.ch.fileno()
+        self.progs = progs
+        self.fns = [self._thread(p) for p in progs]
+
+    def _thread(self, prog):
+        def fn():
+            for op, v in prog:
+                chan_apply(self.ch, op, v)
+        return fn
+
+    def observe(self, sched, dead):
+        return {"readable": is_readable(self.fd), "wanted": chan_wanted(self.ch), "dead": dead,
+                "exc": {k: repr(v) for k, v in sched.exc.items()},
+                "lens": [len(self.ch.in_buffer), len(self.ch.in_stderr_buffer)],
+                "eof": bool(self.ch.eof_received), "closed": bool(self.ch.closed)}
+
+    def close(self):
+        close_channel_fds(self.ch)
+
+
+def chan_setups(rng, count):
+    out = []
+    for _ in range(count):
+        pre = []
+        if rng.random() < 0.5:
+            pre.append((0, rng.randrange(2)))
+        if rng.random() < 0.5:
+            pre.append((2, rng.randrange(2)))
+        t0 = [(rng.choice([0, 0, 2, 2, 1, 3, 9]), rng.randrange(2)) for _ in range(rng.randrange(1, 3))]
+        t1 = [(rng.choice([4, 4, 6]), 0) for _ in range(rng.randrange(1, 3))]
+        t2 = [(rng.choice([5, 5, 6]), 1) for _ in range(rng.randrange(1, 3))]
+        progs = [t0, t1, t2] if rng.random() < 0.6 else ([t0, t1] if rng.random() < 0.5 else [t0, t2])
+        out.append((pre, progs))
+    return out
+
+
+# ------------------------------------------------------------------------------------------
+
+
+def check_pipe_setup(ctx, start, calls, max_preempt, limit, cases, stats):
+    expected = pipe_expected(start, calls)
+    gen = explore(lambda: PipeEnv(start, calls), max_preempt, limit)
+    complete = True
+    while True:
+        try:
+            choices, obs = next(gen)
+        except StopIteration as e:
+            complete = bool(e.value)
+            break
+        stats["runs"] += 1
+        case = {"start": [int(x) for x in start], "calls": calls, "schedule": choices}
+        ctx.count(("pipe", start, calls, tuple(choices)), nontrivial=len(set(choices)) > 1, kind="pipe-%dthr" % len(calls))
+        cases.append((case, obs))
+        if obs["dead"] is not None:
+            ctx.fail("pipe-call-blocks", "a set/clear call blocks for ever (os.read on an empty pipe or a lock cycle) "
+                     "under a line-level interleaving", case=case, expected="all calls return", observed=obs["dead"])
+        elif obs["exc"]:
+            ctx.fail("pipe-call-raises", "a set/clear call raised", case=case, observed=obs["exc"])
+        elif bool(obs["flags"][5]) != expected:
+            ctx.fail("pipe-readable-mismatch-at-quiescence",
+                     "after all set/clear/set_forever calls returned, select() on the descriptor disagrees with "
+                     "(stdout event set or stderr event set or set_forever called)",
+                     case=case, expected=expected, observed={"readable": bool(obs["flags"][5]), "flags": obs["flags"]})
+    return complete
+
+
+def run(ctx):
+    rng = ctx.rng
+    ctx.rule = ("(1) pipe level: every start state reachable through the API (8: p1/p2/forever) x call combinations "
+                "(stdout-half thread, stderr-half thread, set_forever thread; one or two calls each), ALL line-level "
+                "interleavings of one stdout-half call against one stderr-half call, preemption-bounded otherwise "
+                "(against set_forever: 1 quick / 3 thorough preemptions; three threads or two calls each: 1 / 2, "
+                "quick tier capped at 40 schedules per setup) on real "
+                "PosixPipe/OrPipe "
+                "objects; (2) real Channel + stub transport, seeded random operation sequences run sequentially, "
+                "compared with the model after every operation; (3) real Channel, 2-3 threads, preemption-bounded "
+                "interleavings, oracle at quiescence.  A case is non-trivial when its schedule switches threads "
+                "(1, 3) or has at least 2 operations (2).")
+    ctx.trusted += ["model coq/Model/C24.v is hand-written; its atomic actions are identified with the critical "
+                    "sections of paramiko/pipe.py by the scheduler-driven correspondence (order of first executed "
+                    "line of each OrPipe / PosixPipe method invocation), not by proof",
+                    "OS pipe + select() are modelled as a byte counter (FIONREAD and select are observed)",
+                    "sys.settrace line events as the granularity of interleaving (byte-code level interleavings "
+                    "inside one source line are not explored)"]
+    ctx.assumptions += ["Channel.close() (which closes the descriptor) and WindowsPipe are outside the model",
+                        "buffer contents abstracted to empty / non-empty"]
+    ctx.prove()
+    old_switch = sys.getswitchinterval()
+    try:
+        # ---- 1. pipe level, concurrent ------------------------------------------------------
+        cases = []
+        stats = {"runs": 0}
+        all_complete = True
+        for start, calls in pipe_setups(ctx.thorough, rng):
+            simple = len(calls) == 2 and max(len(c) for c in calls) == 1
+            if simple and 4 not in (calls[0] + calls[1]):
+                mp = None                       # stdout-half call against stderr-half call: all interleavings
+            elif simple:
+                mp = 3 if ctx.thorough else 1   # against set_forever (2002 interleavings unbounded)
+            else:
+                mp = 2 if ctx.thorough else 1
+            limit = 1500 if ctx.thorough else (600 if simple else 40)
+            complete = check_pipe_setup(ctx, start, calls, mp, limit, cases, stats)
+            all_complete = all_complete and complete
+        ctx.log("pipe level: %d schedules on the real objects (enumeration complete within bounds: %s)" % (
+            stats["runs"], all_complete))
+        ctx.exhaustive = all_complete
+        mcases = []
+        first = {}
+        for idx, (case, obs) in enumerate(cases):
+            inp = "((%s, %s), %s)" % (coq(case["start"]), coq(case["calls"]), coq(obs["msched"]))
+            key = (inp, tuple(obs["flags"]))
+            if key not in first:        # many line-level schedules induce the same critical-section order
+                first[key] = idx
+                mcases.append((inp, obs["flags"]))
+        order = list(first.values())
+        ctx.log("pipe level: %d distinct (critical-section schedule, outcome) pairs" % len(mcases))
+        bad = ctx.model_mismatches("run_pipe", "((list Z * list (list Z)) * list Z)", mcases, shard=100)
+        for i in bad[:3]:
+            j = order[i]
+            ctx.disagree("pipe-level flags / readability after a schedule differ from the model",
+                         case=dict(cases[j][0], msched=cases[j][1]["msched"]), impl=cases[j][1]["flags"])
+        if cases:
+            ctx.sample({"pipe": cases[len(cases) // 2][0], "impl_flags": cases[len(cases) // 2][1]["flags"],
+                        "model_schedule": cases[len(cases) // 2][1]["msched"]})
+
+        # ---- 2. channel level, sequential ----------------------------------------------------
+        scases = []
+        for j in range(2000 if ctx.thorough else 400):
+            nops = rng.randrange(1, 9)
+            start, mops, out, failure = chan_sequential_case(rng, nops)
+            ctx.count(("seq", tuple(start), tuple(mops)), nontrivial=len(mops) >= 2, kind="chan-seq")
+            scases.append((start, mops, out))
+            if failure is not None:
+                key, upto, r, w = failure
+                what = ("a zero-length feed makes the descriptor readable while recv would block" if key == "empty-feed-sets-event"
+                        else "select() on Channel.fileno() disagrees with (stdout data or stderr data or EOF/closed)")
+                ctx.fail(key, what, case={"start": start, "ops": upto}, expected=w, observed=r)
+        bad = ctx.model_mismatches("run_chan", "(list Z * list Z)",
+                                   [("(%s, %s)" % (coq(s), coq(m)), o) for s, m, o in scases], shard=64)
+        for i in bad[:3]:
+            ctx.disagree("Channel event maintenance differs from the model (sequential run)",
+                         case={"start": scases[i][0], "ops": scases[i][1]}, impl=scases[i][2])
+        ctx.sample({"chan_seq": {"start": scases[0][0], "ops": scases[0][1], "impl": scases[0][2]}})
+
+        # ---- 3. channel level, concurrent (oracle) --------------------------------------------
+        nrun = 0
+        for pre, progs in chan_setups(rng, 40 if ctx.thorough else 10):
+            gen = explore(lambda: ChanEnv(pre, progs), 2, 300 if ctx.thorough else 60)
+            for choices, obs in gen:
+                nrun += 1
+                case = {"pre": pre, "progs": progs, "schedule": choices}
+                ctx.count(("chan", tuple(pre), repr(progs), tuple(choices)), nontrivial=len(set(choices)) > 1,
+                          kind="chan-conc")
+                if obs["dead"] is not None:
+                    ctx.fail("channel-op-blocks", "a channel operation blocks for ever inside the event maintenance",
+                             case=case, observed=obs["dead"])
+                elif obs["exc"]:
+                    ctx.fail("channel-op-raises", "a channel operation raised", case=case, observed=obs["exc"])
+                elif obs["readable"] != obs["wanted"]:
+                    ctx.fail("channel-readable-mismatch-at-quiescence",
+                             "after all operations returned, select() on Channel.fileno() disagrees with "
+                             "(stdout data or stderr data or EOF/closed)", case=case, expected=obs["wanted"],
+                             observed={k: obs[k] for k in ("readable", "lens", "eof", "closed")})
+        ctx.log("channel level: %d concurrent schedules" % nrun)
+    finally:
+        sys.setswitchinterval(old_switch)
+
+
+def replay(ctx, rep):
+    case = rep["case"]
+    if "calls" in case:
+        start = tuple(bool(x) for x in case["start"])
+        env = PipeEnv(start, case["calls"])
+        try:
+            sched = Sched(env.fns)
+            it = iter(case["schedule"])
+
+            def choose(en, _s):
+                t = next(it, en[0])
+                return t if t in en else en[0]
+            dead = None
+            try:
+                sched.run(choose)
+            except Deadlock as e:
+                dead = e.args[0]
+            obs = env.observe(sched, dead)
+        finally:
+            env.close()
+        ctx.count(("replay", repr(case)))
+        ctx.count(("replay2", repr(case)))
+        exp = pipe_expected(start, case["calls"])
+        if dead is not None or obs["exc"] or bool(obs["flags"][5]) != exp:
+            ctx.fail(rep["key"], rep["what"], case=case, expected=exp, observed=obs["flags"])
+    elif "progs" in case:
+        pre = [tuple(x) for x in case["pre"]]
+        progs = [[tuple(x) for x in p] for p in case["progs"]]
+        env = ChanEnv(pre, progs)
+        try:
+            sched = Sched(env.fns)
+            it = iter(case["schedule"])
+
+            def choose(en, _s):
+                t = next(it, en[0])
+                return t if t in en else en[0]
+            dead = None
+            try:
+                sched.run(choose)
+            except Deadlock as e:
+                dead = e.args[0]
+            obs = env.observe(sched, dead)
+        finally:
+            env.close()
+        ctx.count(("replay", repr(case)))
+        ctx.count(("replay2", repr(case)))
+        if dead is not None or obs["exc"] or obs["readable"] != obs["wanted"]:
+            ctx.fail(rep["key"], rep["what"], case=case, expected=obs["wanted"], observed=obs["readable"])
+    else:
+        run(ctx)
